@@ -20,11 +20,12 @@ type E1Config struct {
 	Serve        bool
 	LockYields   bool
 	EmptyReads   bool
+	EmptyHeavy   bool // about every other read returns (0, nil)
 }
 
 func (c E1Config) String() string {
-	return fmt.Sprintf("softC=%v softS=%v split=%d wbuf=%d manual=%v smax=%d rmax=%d inact=%s cap=%d tcp=%v serve=%v lockY=%v emptyR=%v",
-		c.SoftC, c.SoftS, c.Split, c.WBuf, c.Manual, c.StreamMax, c.ReaderMax, c.Inactivity, c.NetCap, c.TCP, c.Serve, c.LockYields, c.EmptyReads)
+	return fmt.Sprintf("softC=%v softS=%v split=%d wbuf=%d manual=%v smax=%d rmax=%d inact=%s cap=%d tcp=%v serve=%v lockY=%v emptyR=%v%s",
+		c.SoftC, c.SoftS, c.Split, c.WBuf, c.Manual, c.StreamMax, c.ReaderMax, c.Inactivity, c.NetCap, c.TCP, c.Serve, c.LockYields, c.EmptyReads, map[bool]string{true: "(heavy)"}[c.EmptyHeavy])
 }
 
 // ---- program ---------------------------------------------------------------
@@ -59,10 +60,14 @@ type Op struct {
 	Sender int
 	Seq    int
 	Bad    bool // the message cannot be decoded by the receiver's encoding (first byte 0xEE)
+	Unenc  bool // the message cannot be encoded by the sender's encoding (first byte 0xEF): the send fails, nothing is sent
 }
 
 func (o Op) String() string {
 	if o.Kind == OpSend {
+		if o.Unenc {
+			return fmt.Sprintf("Send(%d,s%d#%d,unencodable)", o.Size, o.Sender, o.Seq)
+		}
 		if o.Bad {
 			return fmt.Sprintf("SendUndecodable(%d,s%d#%d)", o.Size, o.Sender, o.Seq)
 		}
@@ -124,6 +129,7 @@ type RPCSpec struct {
 	Resp int // unary response size
 
 	Cancel     bool // a canceller task cancels the RPC's context at an arbitrary instant
+	Deadline   bool // ... and the context ends as an expired deadline (Err() == DeadlineExceeded)
 	CancelDelay int // number of scheduling points the canceller lets pass first
 	Task       int  // client task issuing this RPC
 	Misbehaved bool // scripts were truncated / do not follow the conversation to its end
@@ -174,6 +180,9 @@ func (r *RPCSpec) String() string {
 	}
 	if r.Cancel {
 		s += fmt.Sprintf(" +canceller(delay=%d)", r.CancelDelay)
+		if r.Deadline {
+			s += "(deadline)"
+		}
 	}
 	return s
 }
@@ -239,6 +248,7 @@ type E1Mode struct {
 	PooledP     float64 // probability of the pooled family (client calls go through drpcpool)
 	ServeCancelP float64 // probability that the server's context is cancelled at a scheduler-chosen instant
 	BadMsgP     float64 // probability that a conversation message is undecodable / a unary request unencodable
+	WriteFaultP float64 // probability of one drawn write error (fail-stop) on either endpoint
 }
 
 func e1ModeFor(prop string) E1Mode {
@@ -250,18 +260,20 @@ func e1ModeFor(prop string) E1Mode {
 		m.MaxRPCs, m.MaxTasks, m.Misbehave, m.CancelP, m.ErrP, m.OnlyUnaryP, m.StormP = 6, 3, 0.4, 0.35, 0.3, 0.2, 0.25
 	case "C04":
 		m.MaxRPCs, m.CancelP, m.Duplex, m.StallP, m.SmallNet, m.Misbehave, m.CloserP, m.ServeCancelP = 2, 0.9, 0.6, 0.5, 0.5, 0.2, 0.6, 0.15
+		m.MaxTasks, m.OnlyUnaryP = 2, 0.15
 	case "C05":
 		m.MaxRPCs, m.IOFaults, m.ErrP, m.Misbehave, m.Duplex, m.ServeP, m.NoInact, m.MetaP = 3, true, 0.2, 0.2, 0.2, 0, true, 0.3
 	case "C06":
 		m.MaxRPCs, m.Misbehave, m.CancelP, m.ErrP, m.ForceSoftC, m.StallP, m.StallHeals, m.MetaP, m.BadMsgP, m.SmallNet = 4, 0.7, 0.4, 0.3, 1, 0.2, true, 0.4, 0.06, 0.25
 	case "C07":
 		m.MaxRPCs, m.MaxTasks, m.Duplex, m.CancelP, m.Misbehave, m.SmallNet, m.CloserP = 4, 3, 0.6, 0.4, 0.4, 0.6, 0.5
+		m.WriteFaultP = 0.12
 	case "C10":
-		m.MaxRPCs, m.ErrP, m.UnknownP, m.Misbehave, m.SmallNet, m.ServeCancelP, m.Duplex = 4, 0.7, 0.1, 0.25, 0.3, 0.1, 0
+		m.MaxRPCs, m.ErrP, m.UnknownP, m.Misbehave, m.SmallNet, m.ServeCancelP, m.Duplex = 4, 0.7, 0.1, 0.25, 0.3, 0.1, 0.15
 	case "C11":
 		m.MaxRPCs, m.MetaP, m.CancelP, m.Misbehave, m.ForceSoftC = 6, 0.7, 0.35, 0.3, -1
 	case "C12":
-		m.MaxRPCs, m.CloseFaults, m.Duplex, m.StallP, m.ServeP, m.NoInact, m.CloserP, m.SmallNet, m.Misbehave, m.PooledP = 3, 0, 0.3, 0.3, 0.5, true, 0.2, 0.3, 0.3, 0.2
+		m.MaxRPCs, m.CloseFaults, m.Duplex, m.StallP, m.ServeP, m.NoInact, m.CloserP, m.SmallNet, m.Misbehave, m.PooledP = 3, 0, 0.4, 0.4, 0.5, true, 0.5, 0.3, 0.3, 0.2
 	case "C15":
 		m.MaxRPCs, m.MaxTasks, m.CancelP, m.Misbehave, m.ErrP, m.PooledP, m.OnlyUnaryP, m.Duplex = 5, 3, 0.4, 0.3, 0.2, 1.0, 0.3, 0.2
 	case "C13":
@@ -319,6 +331,7 @@ func (g *e1gen) drawConfig() E1Config {
 	c.Serve = g.chance(m.ServeP)
 	c.LockYields = g.chance(0.5)
 	c.EmptyReads = g.chance(0.2)
+	c.EmptyHeavy = c.EmptyReads && g.chance(0.35)
 	return c
 }
 
@@ -445,8 +458,18 @@ func (g *e1gen) errSpec(idx int) ErrSpec {
 	if e.Style == 3 {
 		e.Msg = fmt.Sprintf("backend of rpc %d lost: EOF", idx)
 	}
+	if g.chance(0.12) {
+		// the application's shared, coded sentinel error: returned as it is (style
+		// 4) or re-coded for this call with WithCode (style 5)
+		e = ErrSpec{Msg: sentinelText, Code: 5, Style: 4}
+		if g.chance(0.5) {
+			e.Code, e.Style = 9, 5
+		}
+	}
 	return e
 }
+
+const sentinelText = "shared sentinel of the rpc handlers"
 
 // conversation builds turn based client/handler scripts.
 func (g *e1gen) conversation(r *RPCSpec) {
@@ -504,12 +527,20 @@ func (g *e1gen) duplex(r *RPCSpec) {
 		for s := 0; s < nsend; s++ {
 			var ops []Op
 			n := 1 + g.weighted(2, 3, 2, 1)
+			seq := 0
 			for i := 0; i < n; i++ {
 				sz := g.size()
 				if sz < 12 {
 					sz = 12 + sz // duplex messages always carry the self-describing header
 				}
-				ops = append(ops, Op{Kind: OpSend, Size: sz, Sender: s, Seq: i})
+				if g.chance(g.mode.BadMsgP) {
+					// refused by the sender's own encoder: the send fails, nothing is sent,
+					// the sequence the receiver sees has no hole
+					ops = append(ops, Op{Kind: OpSend, Size: sz, Sender: s, Seq: 900 + i, Unenc: true})
+					continue
+				}
+				ops = append(ops, Op{Kind: OpSend, Size: sz, Sender: s, Seq: seq})
+				seq++
 			}
 			if g.cfg.Manual {
 				ops = append(ops, Op{Kind: OpFlush})
@@ -580,6 +611,19 @@ func (g *e1gen) misbehave(r *RPCSpec) {
 	}
 	if !r.Duplex && g.chance(0.15) {
 		r.COps = skip(r.COps, 0.5)
+	}
+	// the handler half-closes itself ("SendAndClose") somewhere in its script and
+	// goes on / returns; whatever the client still sends arrives afterwards
+	if !r.Duplex && g.chance(0.2) {
+		at := g.pick(len(r.HOps) + 1)
+		ops := append([]Op{}, r.HOps[:at]...)
+		ops = append(ops, Op{Kind: OpCloseSend})
+		for _, o := range r.HOps[at:] {
+			if o.Kind != OpSend && o.Kind != OpFlush {
+				ops = append(ops, o)
+			}
+		}
+		r.HOps = ops
 	}
 	if g.chance(0.15) {
 		r.HOps = append(r.HOps, Op{Kind: OpWaitCtx})
@@ -691,6 +735,7 @@ func (g *e1gen) rpc(idx int) *RPCSpec {
 	}
 	if r.Cancel {
 		r.CancelDelay = g.delay()
+		r.Deadline = g.chance(0.25)
 	}
 	if r.Unknown {
 		r.Clean = false
@@ -743,6 +788,10 @@ func genE1(ch *Choices, mode E1Mode) *E1Prog {
 	}
 	if g.chance(mode.ServeCancelP) {
 		p.FaultTask = append(p.FaultTask, FaultTask{Kind: "cancel-serve", Delay: g.delay()})
+	}
+	if g.chance(mode.WriteFaultP) {
+		ep := []string{"client", "server"}[g.pick(2)]
+		p.IOFaults = map[string][]*Fault{ep: {{Op: 1 + g.pick(40), Kind: "write-err", Partial: g.pick(9)}}}
 	}
 	if g.chance(mode.CloseFaults) {
 		kinds := []string{"close-client-conn", "close-server-tr", "close-client-tr", "cancel-serve", "close-client-conn-twice"}
